@@ -136,11 +136,29 @@ def allocator_fns(tm):
                     direct.append(b["path"])
                 callers.setdefault(n, set()).add(b["path"])
 
-    def has_loop(p):
+    def own_loop(p):
         b = tm.facts.body(p)
         return bool(b) and bool(cfgmod.CFG(b).back_edges())
+
+    def has_loop(p, depth=0, seen_=None):
+        # a loop of its own, or in a crate-local helper it calls (a generic scanner taking the per-probe attempt as a closure)
+        seen_ = seen_ if seen_ is not None else set()
+        if p in seen_ or depth > 3:
+            return False
+        seen_.add(p)
+        if own_loop(p):
+            return True
+        b = tm.facts.body(p)
+        if not b:
+            return False
+        for name, foreign, local, t in tm.facts.callees_of(b):
+            if local and tm.facts.body(name) is not None and has_loop(name, depth + 1, seen_):
+                return True
+        return False
     out = []
     for p in direct:
+        if "::{closure#" in p:
+            p = p.split("::{closure#")[0]          # the probe is a closure: the search belongs to the function that builds it
         q, seen = p, set()
         while not has_loop(q) and q not in seen:
             seen.add(q)
@@ -149,6 +167,8 @@ def allocator_fns(tm):
                 q = p if not has_loop(q) else q
                 break
             q = next(iter(cs))
+            if "::{closure#" in q:
+                q = q.split("::{closure#")[0]
         if not has_loop(q):
             q = p
         if q not in out:
@@ -157,7 +177,24 @@ def allocator_fns(tm):
 
 
 def allocator_variants(tm, path):
-    return tm.variants(path, tag="havoc", havoc_loops=True)
+    # loops of crate-local helpers the allocator calls (a generic scanner taking the per-probe attempt as a closure) are summarised the
+    # same way as its own
+    from .. import cfg as cfgmod
+    helpers, todo, seen = set(), [path], set()
+    while todo:
+        q = todo.pop()
+        if q in seen or len(seen) > 12:
+            continue
+        seen.add(q)
+        b = tm.facts.body(q)
+        if not b:
+            continue
+        if q != path and cfgmod.CFG(b).back_edges():
+            helpers.add(q)
+        for name, foreign, local, t in tm.facts.callees_of(b):
+            if local and tm.facts.body(name) is not None:
+                todo.append(name)
+    return tm.variants(path, tag="havoc", havoc_loops=True, havoc_in=frozenset(helpers))
 
 
 def allocator_contract(tm, path):
